@@ -9,7 +9,7 @@ def fem():
     return felupe
 
 
-def box_mesh(fam, rng, n=None, distort=True, lengths=None):
+def box_mesh(fam, rng, n=None, distort=True, lengths=None, curved_interior=False):
     """Mesh of an axis-aligned box [0,L] with interior points perturbed (faces stay planar, outer boundary fixed)."""
     f = fem()
     F = gen.FAMILIES[fam]
@@ -25,6 +25,17 @@ def box_mesh(fam, rng, n=None, distort=True, lengths=None):
         X[~onb] += 0.12 * h * rng.uniform(-1, 1, (int((~onb).sum()), dim))
         base = base.copy(points=X)
     mesh = F["conv"](base)
+    if distort and curved_interior and fam in ("quad8", "quad9", "hexahedron20", "hexahedron27", "triangle6"):
+        # arbitrary interior distortion of the higher-order quad/hex families (and any tri6): interior mid-nodes are moved
+        # independently of the vertices, i.e. interior edges become curved (the outer boundary stays the box)
+        X = mesh.points.copy()
+        onb = np.any(np.isclose(X, 0) | np.isclose(X, L), axis=1)
+        h = float(np.min(L / (np.array(n) - 1)))
+        nvert = base.npoints
+        mid = np.arange(len(X)) >= nvert
+        sel = mid & ~onb
+        X[sel] += 0.04 * h * rng.uniform(-1, 1, (int(sel.sum()), dim))
+        mesh = mesh.copy(points=X)
     return mesh, L
 
 
